@@ -28,6 +28,8 @@ def run(ctx):
     lm = LockModel(f)
     rules_C03.transitions(ctx, f, lm, cfg, "C16")
     rules_C03.try_pass(ctx, f, cfg, "C16")
+    # a blocked probe gives the Half-Open phase back through its exit hook: the hook must actually run for blocked entries
+    rules_C03.hook_runs_for_blocked(ctx, f, cfg, "C16")
     # listeners under the guard
     n = 0
     for st in state_stores(f):
@@ -36,7 +38,8 @@ def run(ctx):
             continue
         r = lm.analyse(b)
         for bb, name, t in listener_calls(b):
-            held = [r["acq"][i]["cls"] for i in r["held_at_term"].get(bb, ())]
+            # held on EVERY path to the notification (a guard dropped on one branch before the join is not held)
+            held = [r["acq"][i]["cls"] for i in r["must_held_at_term"].get(bb, ())]
             ok = "inst:State" in held
             n += 1
             ctx.instance("C16.ordered-notify", "%s@%s" % (b.path, name), held, "state guard held during the notification", ok, cfg)
